@@ -41,6 +41,7 @@ func runC05(p *eng.Prog, r *eng.Report, tier string) {
 	c05SendHandsReaderOn(c, "C05.19")
 	c05ReplyFlushedAfterHandler(c, "C05.20")
 	c05ContentNamespaceFromRole(c, "C05.17")
+	streamInfoResetOnlyOnRestart(c, "C05.21")
 	nEnum := enumExhaustive(c, "C05.13", []string{"stanza"})
 	c.r.Floor("C05.13", "enumeration methods in package stanza", nEnum, 2)
 	c05Send(c)
@@ -1005,6 +1006,35 @@ func c05ContentNamespaceFromRole(c *cx, id string) {
 		}
 	}
 	c.r.Floor(id, "stores of the output stream's content namespace", n, 4)
+}
+
+// streamInfoResetOnlyOnRestart (C05.21 / C12.18): the negotiator stores what it
+// learnt about a stream (content namespace, id, version, language) in
+// Session.in.Info / Session.out.Info when it opens the stream - and only then.
+// negotiateSession wipes the two records (keeping to/from) when a step returned
+// a new stream layer; a wipe before a step that does not reopen the stream
+// loses the content namespace: the stanza encoder is then built with an empty
+// namespace and, on server-to-server streams, without the from address. Every
+// whole-record store into the two fields inside the negotiation loop is
+// dominated by the edge `rw != nil`.
+func streamInfoResetOnlyOnRestart(c *cx, id string) {
+	f := c.fn(id, "", "negotiateSession")
+	if f == nil {
+		return
+	}
+	g := f.Graph()
+	n := 0
+	for _, cls := range []string{"xmpp.Session.in.Info", "xmpp.Session.out.Info"} {
+		for _, w := range f.FieldWrites(cls) {
+			pt, ok := g.Where(w.Stmt)
+			if !ok || !g.Reachable(g.After(pt), pt, nil, nil) {
+				continue // not in the loop
+			}
+			n++
+			c.domAny(id, f, w.Stmt, "per-stream reset of "+cls, []string{"!eq(local:p*<io.ReadWriter>,nil)", "!eq(*#1,nil)"})
+		}
+	}
+	c.r.Floor(id, "resets of the stream records in the negotiation loop", n, 2)
 }
 
 // c05SendHandsReaderOn (C05.19): Session.Send / SendElement copy the caller's
